@@ -86,7 +86,7 @@ def impl_snaps(r):
 
 
 def strip_ghost(line):
-    return " ".join(w for w in line.split(" ") if not (w.startswith("ex=") or w.startswith("hl=")))
+    return " ".join(w for w in line.split(" ") if not (w.startswith("ex=") or w.startswith("hl=") or w.startswith("ag=")))
 
 
 def run_harness(binp, cases, workers=8, quiet_ms=None):
